@@ -1,10 +1,31 @@
 /* Common definitions for proof translation units (CBMC side). */
 #ifndef VERIF_COMMON_H
 #define VERIF_COMMON_H
+#ifdef VERIF_NATIVE
+#include "native_rt.h"
+#define PO(p) 0
+#define OS(p) 0
+#else
 #include <stddef.h>
 #include <stdint.h>
 #include <limits.h>
 
+#ifdef VERIF_CEX_SEARCH
+/* counterexample search build: every nondeterministic choice is logged in call order so that the
+   verifier's trace can be replayed natively (native_rt.h feeds the same values back in the same order) */
+long long verif_nd[1024]; int verif_nd_n;
+#define VERIF_ND_LOG(v) do { if (verif_nd_n < 1024) verif_nd[verif_nd_n++] = (long long)(v); } while (0)
+int nondet_int_raw(void); unsigned nondet_uint_raw(void); unsigned char nondet_uchar_raw(void); short nondet_short_raw(void);
+long long nondet_ll_raw(void); float nondet_float_raw(void); _Bool nondet_bool_raw(void); size_t nondet_size_t_raw(void);
+static int nondet_int(void) { int v = nondet_int_raw(); VERIF_ND_LOG(v); return v; }
+static unsigned nondet_uint(void) { unsigned v = nondet_uint_raw(); VERIF_ND_LOG(v); return v; }
+static unsigned char nondet_uchar(void) { unsigned char v = nondet_uchar_raw(); VERIF_ND_LOG(v); return v; }
+static short nondet_short(void) { short v = nondet_short_raw(); VERIF_ND_LOG(v); return v; }
+static long long nondet_ll(void) { long long v = nondet_ll_raw(); VERIF_ND_LOG(v); return v; }
+static _Bool nondet_bool(void) { _Bool v = nondet_bool_raw(); VERIF_ND_LOG(v); return v; }
+static size_t nondet_size_t(void) { size_t v = nondet_size_t_raw(); VERIF_ND_LOG(v); return v; }
+static float nondet_float(void) { union { float f; unsigned u; } c; c.f = nondet_float_raw(); VERIF_ND_LOG(c.u); return c.f; }
+#else
 int nondet_int(void);
 unsigned nondet_uint(void);
 unsigned char nondet_uchar(void);
@@ -13,6 +34,7 @@ long long nondet_ll(void);
 float nondet_float(void);
 _Bool nondet_bool(void);
 size_t nondet_size_t(void);
+#endif
 void *nondet_ptr(void);
 
 /* A canary is an assertion that MUST be refuted: it shows that the code after the
@@ -41,4 +63,6 @@ void *nondet_ptr(void);
 #define VERIF_DEFINE_CELT_FATAL \
   void celt_fatal(const char *str, const char *file, int line) VERIF_FATAL_BODY
 
+#define VERIF_NATIVE_MAIN(h)
+#endif /* VERIF_NATIVE */
 #endif
